@@ -57,7 +57,11 @@ def prepare_run(
     elif isinstance(executor, dict):
         executor = executor.copy()  # this dict might be mutated, so we copy it
     validate_slurm_executor(executor, in_async)
-    _validate_complete_inputs(pipeline, inputs)
+    _validate_complete_inputs(
+        pipeline,
+        inputs,
+        provided_outputs=auto_subpipeline or output_names is not None,
+    )
     validate_consistent_axes(pipeline.mapspecs(ordered=False))
     _validate_fixed_indices(fixed_indices, inputs, pipeline)
     run_info = RunInfo.create(
@@ -98,7 +102,12 @@ def _check_parallel(
         return
 
 
-def _validate_complete_inputs(pipeline: Pipeline, inputs: dict[str, Any]) -> None:
+def _validate_complete_inputs(
+    pipeline: Pipeline,
+    inputs: dict[str, Any],
+    *,
+    provided_outputs: bool = False,
+) -> None:
     """Validate that all required inputs are provided.
 
     Note that `output_name is None` means that all outputs are required!
@@ -111,7 +120,18 @@ def _validate_complete_inputs(pipeline: Pipeline, inputs: dict[str, Any]) -> Non
         missing_args = ", ".join(missing)
         msg = f"Missing inputs: `{missing_args}`."
         raise ValueError(msg)
-    if extra := set(inputs_with_defaults) - root_args:
+    overridable: set[str] = set()
+    if provided_outputs:
+        # In a sub-pipeline selected by `inputs` (`output_names` / `auto_subpipeline`) a value
+        # may be provided for one output of a multi-output function whose other outputs are
+        # still needed: the function runs, its consumers of that name get the provided value.
+        overridable = {
+            name
+            for f in pipeline.functions
+            if isinstance(f.output_name, tuple)
+            for name in f.output_name
+        }
+    if extra := set(inputs_with_defaults) - root_args - overridable:
         extra_args = ", ".join(extra)
         msg = f"Got extra inputs: `{extra_args}` that are not accepted by this pipeline."
         raise ValueError(msg)
